@@ -584,6 +584,12 @@ func readSlot(v reflect.Value, env *runEnv) []string {
 		for i := 0; i < v.Len(); i++ {
 			out = append(out, key(v.Index(i)))
 		}
+	case reflect.Array:
+		for i := 0; i < v.Len(); i++ {
+			if k := key(v.Index(i)); k != "nil" {
+				out = append(out, k)
+			}
+		}
 	default:
 		if isDummy(v) {
 			return nil
